@@ -49,6 +49,8 @@ pub struct AuxStats {
 	pub sweeper_tlv_probes: u64,
 	pub depth_scorer: usize,
 	pub depth_sweeper: usize,
+	pub graph_length_cases: u64,
+	pub graph_length_roundtrips_ok: u64,
 }
 
 // =================================================================================================
@@ -735,6 +737,100 @@ fn sw_dfs(ops: &[WOp], seq: &mut Vec<WOp>, depth: usize, out: &mut SwOut) {
 }
 
 // =================================================================================================
+/// NetworkGraph round trip over boundary lengths: a signed `channel_update` / `node_announcement` is stored with its
+/// excess data (kept for relay up to 1024 bytes), so the lengths of the nested optional records sweep across every
+/// length-prefix boundary (BigSize 0xfc/0xfd at 252/253 bytes) as the excess length runs through 0..=300.
+fn graph_length_sweep(threads: usize) -> (u64, u64, Vec<(String, String, String)>) {
+	use lightning::ln::msgs::{ChannelUpdate, NodeAnnouncement, SocketAddress, UnsignedNodeAnnouncement};
+	use lightning::routing::gossip::NodeAlias;
+	let mut lens: Vec<usize> = (0..=300).collect();
+	lens.extend([1023usize, 1024, 1025]);
+	let res = mc_common::par::map(&lens, threads, |_, l| {
+		let secp = Secp256k1::new();
+		let logger = Arc::new(McLogger::new(b'g'));
+		let mut problems: Vec<(String, String, String)> = Vec::new();
+		let mut ok = 0u64;
+		for kind in 0..2u8 {
+			let ng = build_graph(&logger);
+			let chain = ChainHash::using_genesis_block(Network::Testnet);
+			// channel 1 is between NODES[0] and NODES[1]; direction 0 is signed by the smaller node id
+			let (ida, idb) = (NodeId::from_pubkey(&pk(NODES[0])), NodeId::from_pubkey(&pk(NODES[1])));
+			let signer = if ida < idb { NODES[0] } else { NODES[1] };
+			let sk = SecretKey::from_slice(&[signer; 32]).unwrap();
+			let what = if kind == 0 {
+				let contents = UnsignedChannelUpdate {
+					chain_hash: chain,
+					short_channel_id: 1,
+					timestamp: 200,
+					message_flags: 1,
+					channel_flags: 0,
+					cltv_expiry_delta: 41,
+					htlc_minimum_msat: 2,
+					htlc_maximum_msat: 900_000_000,
+					fee_base_msat: 7,
+					fee_proportional_millionths: 3,
+					excess_data: vec![0x5a; *l],
+				};
+				let h = bitcoin::hashes::sha256d::Hash::hash(&contents.encode());
+				let sig = secp.sign_ecdsa(&bitcoin::secp256k1::Message::from_digest(h.to_byte_array()), &sk);
+				if let Err(e) = ng.update_channel(&ChannelUpdate { signature: sig, contents }) {
+					problems.push(("harness".into(), format!("cu{}", l), format!("signed channel_update with {} excess bytes refused: {:?}", l, e.err)));
+					continue;
+				}
+				"channel_update"
+			} else {
+				let contents = UnsignedNodeAnnouncement {
+					features: NodeFeatures::empty(),
+					timestamp: 200,
+					node_id: NodeId::from_pubkey(&pk(signer)),
+					rgb: [1, 2, 3],
+					alias: NodeAlias([7; 32]),
+					addresses: vec![SocketAddress::TcpIpV4 { addr: [127, 0, 0, 1], port: 9735 }],
+					excess_address_data: Vec::new(),
+					excess_data: vec![0xa5; *l],
+				};
+				let h = bitcoin::hashes::sha256d::Hash::hash(&contents.encode());
+				let sig = secp.sign_ecdsa(&bitcoin::secp256k1::Message::from_digest(h.to_byte_array()), &sk);
+				if let Err(e) = ng.update_node_from_announcement(&NodeAnnouncement { signature: sig, contents }) {
+					problems.push(("harness".into(), format!("na{}", l), format!("signed node_announcement with {} excess bytes refused: {:?}", l, e.err)));
+					continue;
+				}
+				"node_announcement"
+			};
+			let bytes = ng.encode();
+			match <Graph as ReadableArgs<Arc<McLogger>>>::read(&mut &bytes[..], logger.clone()) {
+				Err(e) => problems.push((
+					"graph-roundtrip-read".into(),
+					format!("{}:{}", what, l),
+					format!("a NetworkGraph that stored a signed {} with {} bytes of excess data does not read back from its own encoding: {:?}", what, l, e),
+				)),
+				Ok(g2) => {
+					if g2 != *ng {
+						problems.push(("graph-roundtrip-eq".into(), format!("{}:{}", what, l), format!("read(write(g)) != g after a signed {} with {} bytes of excess data", what, l)));
+					} else if g2.encode().len() != bytes.len() {
+						problems.push(("graph-roundtrip-bytes".into(), format!("{}:{}", what, l), format!("re-encoding differs in length after a signed {} with {} excess bytes", what, l)));
+					} else {
+						ok += 1;
+					}
+				},
+			}
+		}
+		(ok, problems)
+	});
+	let mut ok = 0u64;
+	let mut problems = Vec::new();
+	for r in res {
+		match r {
+			Ok((o, p)) => {
+				ok += o;
+				problems.extend(p);
+			},
+			Err(p) => problems.push(("no-panic".into(), "graph-length-sweep".into(), format!("panic in the NetworkGraph length sweep: {}", p))),
+		}
+	}
+	(2 * lens.len() as u64, ok, problems)
+}
+
 pub fn run_aux(thorough: bool, threads: usize) -> (AuxStats, Vec<Violation>) {
 	let depth_scorer = if thorough { 3 } else { 2 };
 	let depth_sweeper = if thorough { 6 } else { 5 };
@@ -774,7 +870,21 @@ pub fn run_aux(thorough: bool, threads: usize) -> (AuxStats, Vec<Violation>) {
 		sweeper_tlv_probes: 0,
 		depth_scorer,
 		depth_sweeper,
+		graph_length_cases: 0,
+		graph_length_roundtrips_ok: 0,
 	};
+	// ---- network graph: boundary lengths of the stored messages ----
+	{
+		let (cases, ok, problems) = graph_length_sweep(threads);
+		st.graph_length_cases = cases;
+		st.graph_length_roundtrips_ok = ok;
+		for (oracle, id, detail) in problems {
+			if oracle == "harness" {
+				mc_common::cli::die(&detail);
+			}
+			push(oracle, id, detail, &mut violations);
+		}
+	}
 	let mut sobs = std::collections::BTreeSet::new();
 	for r in res {
 		match r {
